@@ -724,7 +724,7 @@ def run_c03():
                             behs[i]['cap'] or None, behs[i]['out'], behs[i]['small'], diff), {'leg': 'B', 'behaviour': behs[i], 'index': i, 'difference': diff})
                 else:
                     ctx.cov['traces_validated_against_impl'] += 1
-        ctx.sample({'leg': 'B', 'behaviour': [b for b in behs if b['cap'] == 2 and b['layer'] == 2][0]})
+        ctx.sample_first([{'leg': 'B', 'behaviour': b} for b in behs if b['cap'] == 2 and b['layer'] == 2])
     nsig = ctx.pick(64, 640)
     parts = core.pmap(_cap_records, [(ctx.seed * 1000 + i, max(1, nsig // 16)) for i in range(16)])
     recs = [r for p in parts for r in p[0]]
@@ -735,8 +735,8 @@ def run_c03():
     for r in recs:
         if r['kind'] == 'capped' and r['cap'] < r['ncols_unc']:
             ctx.nontrivial(('C', r['variant'], r['seed'], r['it'], r['cap']))
-    ctx.sample([r for r in recs if r['kind'] == 'capped' and r['cap'] == 2][0])
-    ctx.sample([r for r in recs if r['kind'] == 'capvar'][0])
+    ctx.sample_first([r for r in recs if r['kind'] == 'capped' and r['cap'] == 2])
+    ctx.sample_first([r for r in recs if r['kind'] == 'capvar'])
     kinds = {}
     for r in recs:
         kinds[r['kind'] + ':' + r['variant']] = kinds.get(r['kind'] + ':' + r['variant'], 0) + 1
